@@ -318,6 +318,9 @@ func RunKeep(src string, o Opts) (res Result, s *Session) {
 			panic(acl)
 		}
 		s.Ctx = s.VM.CreateContext(s.P.GetVariables())
+		if rv, ok := s.VM.(*runtime.VM); ok {
+			rv.RegisterGlobalContext(s.P.GetVariables(), s.Ctx)
+		}
 		var uncaught data.Control
 		s.VM.SetThrowControl(func(acl data.Control) {
 			if uncaught == nil {
@@ -457,6 +460,10 @@ func Run(src string, o Opts) (res Result) {
 		return
 	}
 	ctx := vm.CreateContext(p.GetVariables())
+	// as VM.LoadAndRun does: top-level variables are the globals that `global $x` binds to
+	if rv, ok := vm.(*runtime.VM); ok {
+		rv.RegisterGlobalContext(p.GetVariables(), ctx)
+	}
 	_, acl = prog.GetValue(ctx)
 	if acl == nil {
 		acl = uncaught
